@@ -203,6 +203,12 @@ def oracle_tok(evs, term, cs):
                 events.append((r.start, "forget", None, r))
             if r.pre == "ad" and r.args[0] == si:
                 events.append((r.start, "add", r.args[1], r))
+            if r.pre == "mg" and r.args[0] == si and r.tag == 114:
+                events.append((r.done, "merge", None, r))
+            if r.pre == "sp" and r.args[0] == si and r.tag == 115 and r.vals[0] == 1:
+                events.append((r.done, "split", r.args[1], r))
+            if r.pre == "dg" and r.args[0] == si and r.tag != MISUSE:
+                events.append((r.start, "downgrade", None, r))
         for t, p in ended.items():
             events.append((p, "end", t, None))
         events.sort(key=lambda x: x[0])
@@ -220,6 +226,20 @@ def oracle_tok(evs, term, cs):
                         forgotten += x
             elif kind == "add":
                 added += n
+            elif kind == "merge":
+                h = held.get(r.task, [])
+                if len(h) >= 2:
+                    a = h.pop()
+                    h[-1] += a
+            elif kind == "split":
+                h = held.get(r.task, [])
+                if h and h[-1] >= n:
+                    h[-1] -= n
+                    h.append(n)
+            elif kind == "downgrade":
+                h = held.get(r.task, [])
+                if h:
+                    h[-1] = 1
             elif kind == "end":
                 held[n] = []
             total = sum(sum(h) for h in held.values())
@@ -423,6 +443,7 @@ def deadlock_oracle(recs, recs_by_done, pending, ended, objs, evs):
                     if okv:
                         acq += acq_n(r, objs)
             back = sum(r.vals[1] for r in recs_by_done if r.tag == 73 and r.pre == "rl" and r.args[0] == ci)
+            back += sum(o.init - 1 for r in recs if r.pre == "dg" and r.args[0] == ci and r.tag == 113)
             # drops at the end of bodies: tag 73 records after END carry the store index; count them by replaying holdings
             back_end = end_drops(recs, ended, ci, objs)
             added = sum(r.args[1] for r in recs_by_done if r.pre == "ad" and r.args[0] == ci)
@@ -460,6 +481,20 @@ def end_drops(recs, ended, si, objs):
             h = per_task.get(r.task, [])
             if h:
                 h.pop()
+        if r.pre == "mg" and r.args[0] == si and r.tag == 114:
+            h = per_task.get(r.task, [])
+            if len(h) >= 2:
+                a = h.pop()
+                h[-1] += a
+        if r.pre == "sp" and r.args[0] == si and r.tag == 115 and r.vals[0] == 1:
+            h = per_task.get(r.task, [])
+            if h and h[-1] >= r.args[1]:
+                h[-1] -= r.args[1]
+                h.append(r.args[1])
+        if r.pre == "dg" and r.args[0] == si and r.tag == 113:
+            h = per_task.get(r.task, [])
+            if h:
+                h[-1] = 1
     for t, h in per_task.items():
         if t in ended:
             total += sum(h)
